@@ -396,10 +396,11 @@ class InteractingNetworks(Network):
         :rtype: 2D array [node index, node index]
         :return: the subnetwork's adjacency matrix.
         """
-        #  Create igraph Graph object describing the subgraph
-        subgraph = self.graph.subgraph(node_list)
-        #  Get adjacency matrix
-        return np.array(subgraph.get_adjacency(type=2).data).astype(np.int8)
+        #  Index the adjacency matrix with the node list, so that rows and
+        #  columns follow the order of node_list (igraph's subgraph() would
+        #  silently sort the nodes by index)
+        nodes = np.asarray(node_list, dtype=int)
+        return self.adjacency[nodes, :][:, nodes].astype(np.int8)
 
     def cross_adjacency(self, node_list1, node_list2):
         """
